@@ -1,7 +1,7 @@
 #!/bin/sh
 # Full regression of the checker: quick checks on /repo, mutation self-validation, behaviour-preserving refactorings
 # (must stay silent) and confirmed seeds (must be detected).  Usage: tools/regress.sh [quick|mutants|refactors|seeds]...
-cd /verif
+cd ${VERIF_DIR:-/verif}
 what="${*:-quick mutants refactors seeds}"
 props="C01 C02 C03 C04 C05 C06 C07 C08 C09 C10 C11 C12 C13 C14 C15 C16 C17 C18 C19 C20"
 for w in $what; do
